@@ -391,6 +391,68 @@ func genHistory(g *sgen, c hcfg) []sop {
 			sop{kind: opFind, filter: types.NewMap(str(key), v, str(other), in)})
 		probe()
 	}
+	if c.prop == "C10" && r.Intn(3) == 0 {
+		// scenario: sorted finds over fields that some documents lack (absent sorts before every value), with windows
+		for _, f := range []string{"a", "b", "c"}[:1+r.Intn(3)] {
+			o := sop{kind: opFind, sortF: f, sortO: []int{1, -1}[r.Intn(2)]}
+			if r.Intn(2) == 0 {
+				o.skip, o.limit = r.Intn(2), 1+r.Intn(3)
+			}
+			ops = append(ops, o)
+		}
+	}
+	if c.indexes && len(idxKeys) > 0 && r.Intn(2) == 0 {
+		// scenario: shapes of filters an index plan has to get right - a range given as two one-sided conditions in an
+		// $and (either order, strict or not), an $or of equalities on one indexed key, and the SAME filter asked again
+		// after a mutation and after the indexes changed
+		ks := idxKeys[r.Intn(len(idxKeys))]
+		k := ks[0]
+		lo := r.Intn(3)
+		hi := lo + r.Intn(3)
+		lower := types.NewMap(str(k), types.NewMap(str([]string{"$gte", "$gt"}[r.Intn(2)]), types.NewInt(lo)))
+		upper := types.NewMap(str(k), types.NewMap(str([]string{"$lte", "$lt"}[r.Intn(2)]), types.NewInt(hi)))
+		both := []types.Value{lower, upper}
+		if r.Intn(2) == 0 {
+			both = []types.Value{upper, lower}
+		}
+		rangeF := types.NewMap(str("$and"), types.NewSlice(both...))
+		v1, v2 := g.scalar(), g.scalar()
+		if len(knownDocs) > 1 {
+			if x := knownDocs[r.Intn(len(knownDocs))].Get(str(k)); x != nil {
+				v1 = x
+			}
+			if x := knownDocs[r.Intn(len(knownDocs))].Get(str(k)); x != nil {
+				v2 = x
+			}
+		}
+		orF := types.NewMap(str("$or"), types.NewSlice(types.NewMap(str(k), v1), types.NewMap(str(k), v2)))
+		again := targetedFor(ks)
+		// an $or of two half-open ranges (the union is open on both sides), either order
+		halves := []types.Value{upper, lower}
+		if r.Intn(2) == 0 {
+			halves = []types.Value{lower, upper}
+		}
+		orRangeF := types.NewMap(str("$or"), types.NewSlice(halves...))
+		// an $or of equalities on a key with a unique single-key index (ids are always unique)
+		orIdF := types.NewMap(str("$or"), types.NewSlice(types.NewMap(str("id"), types.NewInt(r.Intn(5))), types.NewMap(str("id"), types.NewInt(r.Intn(5))), types.NewMap(str("id"), types.NewInt(70+r.Intn(3)))))
+		ops = append(ops, sop{kind: opFind, filter: orRangeF}, sop{kind: opIndex, keys: []string{"id"}, uniq: true}, sop{kind: opFind, filter: orIdF})
+		ops = append(ops, sop{kind: opFind, filter: rangeF}, sop{kind: opFind, filter: orF}, sop{kind: opFind, filter: again},
+			sop{kind: opIndex, keys: []string{k}, uniq: true}, sop{kind: opFind, filter: orF}, sop{kind: opFind, filter: rangeF},
+			sop{kind: opInsert, docs: []types.Map{g.doc(70 + r.Intn(3))}},
+			sop{kind: opUpdate, filter: types.NewMap(str("id"), types.NewInt(r.Intn(5))), upd: types.NewMap(str("$set"), types.NewMap(str(k), g.scalar()))},
+			sop{kind: opFind, filter: again}, sop{kind: opFind, filter: orF}, sop{kind: opFind, filter: rangeF}, sop{kind: opFind, filter: orRangeF}, sop{kind: opFind, filter: orIdF},
+			sop{kind: opUnindex, keys: ks}, sop{kind: opFind, filter: again}, sop{kind: opFind, filter: rangeF}, sop{kind: opFind, filter: orRangeF})
+	}
+	if c.watchers && r.Intn(3) == 0 {
+		// scenario: a watcher that is not reading while one document is changed several times in a row: it must be
+		// handed every one of those changes once it reads
+		ops = append(ops, sop{kind: opWatch}, sop{kind: opInsert, docs: []types.Map{types.NewMap(str("id"), types.NewInt(80), str("a"), types.NewInt(0))}})
+		nwatch++
+		for i := 1; i <= 2+r.Intn(3); i++ {
+			ops = append(ops, sop{kind: opUpdate, filter: types.NewMap(str("id"), types.NewInt(80)), upd: types.NewMap(str("$set"), types.NewMap(str("a"), types.NewInt(i)))})
+		}
+		ops = append(ops, sop{kind: opDelete, filter: types.NewMap(str("id"), types.NewInt(80))})
+	}
 	if c.watchers && r.Intn(3) == 0 {
 		// scenario: several watchers are open, one that was opened EARLIER is closed while later ones stay open, and
 		// the next mutations match all of them: the remaining watchers must see every one of those mutations
